@@ -15,6 +15,7 @@ type POp struct {
 	Nil   bool          `json:"nil,omitempty"`   // reset: Reset(nil)
 	Cap   int           `json:"cap,omitempty"`   // reset: spare capacity of the slice handed over
 	Fill  byte          `json:"fill,omitempty"`  // reset: content of the spare capacity (not part of the data)
+	Empty bool          `json:"empty,omitempty"` // write: when Data is empty, hand over an empty non-nil slice instead of nil
 	Flags int           `json:"flags,omitempty"` // parse
 	Off   int64         `json:"off,omitempty"`   // readat/byteat: absolute offset
 	Len   int           `json:"len,omitempty"`   // readat: len(p)
@@ -288,6 +289,12 @@ func (x *parserExec) added(n int) {
 
 func (x *parserExec) doWrite(op POp) {
 	p := cloneBytes(op.Data)
+	if len(op.Data) == 0 {
+		p = nil
+		if op.Empty {
+			p = []byte{}
+		}
+	}
 	var n int
 	var err error
 	if x.call("Write", []string{"C15", "C16"}, func() { n, err = x.p.Write(p) }) {
